@@ -365,7 +365,10 @@ def shard(rec, tier, index, n_shards):
         # literal classes
         if index == 0:
             for text in ["a(i) = 1e999 * b(i)", "a(i) = b(i) + 1e400", "a(i) = " + "9" * 400 + " * b(i)", "a(i) = 99999999999 * b(i)",
-                         "a(i) = 2147483648 * b(i)", "a(i) = 65536 * 65536 * b(i)", "a(i) = 0.0 * b(i)", "a(i) = 1e308 * b(i)", "a(i) = 1e-320 * b(i)"]:
+                         "a(i) = 2147483648 * b(i)", "a(i) = 65536 * 65536 * b(i)", "a(i) = 0.0 * b(i)", "a(i) = 1e308 * b(i)", "a(i) = 1e-320 * b(i)",
+                         # finite literals whose combination is not finite (nothing may fold them into a non-finite constant)
+                         "a(i) = 1e200 * 1e200 * b(i)", "a(i) = b(i) * (1e308 + 1e308)", "a(i) = 4e307 * 5 * b(i)", "a(i) = 1e200 * 1e200 * b(i) - 1e200 * 1e200 * b(i)",
+                         "a(i) = (0 - 1e308 - 1e308) * b(i)", "a(i) = 1e-200 * 1e-200 * b(i)", "a(i) = 3 * 7 * b(i) + 2 * 5"]:
                 for lang in ("c", "llvm"):
                     one_request(rec, batch, text, {"a": "d", "b": "s"}, ("evaluate",), lang, "literal")
                 cli_request(rec, text, {"a": "d", "b": "s"}, ("evaluate",), "c")
@@ -377,6 +380,26 @@ def shard(rec, tier, index, n_shards):
                                   ("A(i,j) = B(i,j) + C(j,i)", {"A": "ss", "B": "ss", "C": "ss"})]:
                 cli_request(rec, real_text, fm, ("assemble", "compute"), "c", real=True)
             rec.sample({"assignment": "A(i,k) = B(i,j) * C(j,k)", "formats": {"A": "ds", "B": "d1s0", "C": "ss"}, "kinds": ["assemble", "compute"], "language": "c"})
+        # order 4: EVERY output format (384) of permuted copies and of two contractions, inputs all-compressed
+        # and all-dense in natural order (which iteration orders are legal depends on the output's modes and
+        # ordering against the index permutation)
+        o4 = ["A(i,j,k,l) = B(i,j,k,l)", "A(i,j,k,l) = B(i,k,j,l)", "A(i,j,k,l) = B(j,i,l,k)", "A(i,j,k,l) = B(l,k,j,i)", "A(i,j,k,l) = B(k,l,i,j)",
+              "A(i,j,k,l) = B(i,j,k,l) + C(i,k,j,l)", "A(i,j,k,l) = B(i,j,m) * C(m,k,l)", "A(i,j,k,l) = B(l,i) * C(j,k)"]
+        k4 = 0
+        for text in o4:
+            target, tree = gen.parse(text)
+            orders = gen.tensor_orders(target, tree)
+            for out_fmt in taco.all_formats(4):
+                for inp in "sd":
+                    k4 += 1
+                    if k4 % n_shards != index:
+                        continue
+                    if tier == "quick" and (k4 // n_shards) % 2 and text not in o4[:3]:
+                        continue  # quick: the three plain permutations completely, half of the rest
+                    fm = {nme: inp * o for nme, o in orders.items()}
+                    fm[target[1]] = taco.fmt_text(*out_fmt)
+                    fm = {target[1]: fm[target[1]], **{x: fm[x] for x in gen.tensors_of(tree)}}
+                    one_request(rec, batch, text, fm, KINDSETS[k4 % len(KINDSETS)], "c" if k4 % 3 else "llvm", "order-4-every-output-format")
         # many co-iterated sparse operands: the kernel has one `else if` arm per subset of them
         many = [(6, "+", "c"), (9, "+", "c"), (7, "*", "llvm"), (12, "*", "c")] if tier == "quick" else \
                [(6, "+", "c"), (7, "+", "llvm"), (9, "+", "c"), (9, "+", "llvm"), (10, "+", "c"), (12, "*", "c"), (16, "*", "llvm")]
